@@ -1,4 +1,5 @@
 """Registry: which scenario families / model-checking instances decide which property."""
+import json
 import engine, tlc
 from multiprocessing import get_context
 
@@ -168,6 +169,46 @@ def trace_job(rep, known):
                 else: rep.violations.append(('C13.trace', 'TLC rejects the recorded trace: ' + v[:300], rec, None))
 
 
+def check_C19(rep, known):
+    mc_job(rep, 'ToFunction', 'MC_ToFunction.cfg', workers=8)
+    recs, st = tlc.generate('ScenFun', 'ScenFun.cfg', 'C19', rep.tier, rep.seed, parts=1)
+    rep.add_tlc(st)
+    import random
+    rng = random.Random(rep.seed)
+    n = 3000 if rep.tier == 'thorough' else 320
+    recs = rng.sample(recs, min(n, len(recs)))
+    outs = engine.pool_map('funs', 'replay', recs)
+    engine.process_results(rep, recs, outs, [r'C19\.'], known)
+
+
+def check_C03(rep, known):
+    mc_job(rep, 'MC_Order', 'MC_Order.cfg', workers=8)
+    recs, st = tlc.generate('ScenFlow', 'ScenFlow.cfg', 'C03', rep.tier, rep.seed, parts=1)
+    rep.add_tlc(st)
+    outs = engine.pool_map('flow', 'replay', recs)
+    engine.process_results(rep, recs, outs, [r'C03\.'], known)
+    # convergence of the real schemes on the family they do not integrate exactly: error(M) / error(2M) -> 2^p
+    errs = {}
+    for r, o in zip(recs, outs):
+        for c, s, d in o['results']:
+            if c.startswith('C03.info:err:'):
+                _, _, intg, m = c.split(':')
+                key = (r['sc']['fam'], intg, json.dumps([r['sc']['t0'], r['sc']['T'], r['sc']['seed']]))
+                errs.setdefault(key, {})[int(m[1:])] = float(d)
+    for (fam, intg, _), e in errs.items():
+        p_ = 4 if intg == 'rk' else 1
+        for m in (1, 2, 4):
+            if m in e and 2 * m in e and e[m] > 1e-9:
+                ratio = e[m] / max(e[2 * m], 1e-300)
+                # asymptotic rate on the finest pair, monotone decrease before
+                if intg == 'rk': ok = ratio >= 0.8 * 2 ** p_
+                else: ok = (1.4 <= ratio <= 3.0) if m == 4 else ratio > 1.05
+                rep.count('C03.a:rate:' + intg, 'ok' if ok else 'mismatch')
+                if not ok:
+                    rep.violations.append(('C03.a:rate:' + intg, 'error ratio %.3g between M=%d and M=%d on %s, expected about %d' % (ratio, m, 2 * m, fam, 2 ** p_),
+                                           {'sc': {'fam': fam, 'intg': intg, 'M': m}}, None))
+
+
 def check_C13(rep, known):
     life_job(rep, [r'C13\.'], known)
     trace_job(rep, known)
@@ -201,9 +242,11 @@ def check_C18(rep, known):
     life_job(rep, [r'C18\.', r'C13\.d:outcome@\d+:save'], known)
 
 
-CHECKS = {'C15': check_C15, 'C08': check_C08, 'C07': check_C07, 'C02': check_C02, 'C06': check_C06, 'C01': check_C01, 'C04': check_C04, 'C05': check_C05, 'C13': check_C13, 'C17': check_C17, 'C12': check_C12, 'C16': check_C16, 'C20': check_C20, 'C18': check_C18, 'C09': check_C09, 'C10': check_C10, 'C11': check_C11, 'C14': check_C14}
+CHECKS = {'C15': check_C15, 'C08': check_C08, 'C07': check_C07, 'C02': check_C02, 'C06': check_C06, 'C01': check_C01, 'C04': check_C04, 'C05': check_C05, 'C13': check_C13, 'C03': check_C03, 'C19': check_C19, 'C17': check_C17, 'C12': check_C12, 'C16': check_C16, 'C20': check_C20, 'C18': check_C18, 'C09': check_C09, 'C10': check_C10, 'C11': check_C11, 'C14': check_C14}
 ENGINE = {p: ['life', 'replay'] for p in ('C13', 'C18')}
 ENGINE['C20'] = ['faults', 'replay']
 ENGINE['C16'] = ['der', 'replay']
 ENGINE['C12'] = ['stages', 'replay']
 ENGINE['C17'] = ['splines', 'replay']
+ENGINE['C19'] = ['funs', 'replay']
+ENGINE['C03'] = ['flow', 'replay']
